@@ -801,13 +801,17 @@ void varintBitmapAddRange(varintBitmap *vb, uint16_t min, uint16_t max) {
 
     uint32_t rangeSize = max - min;
 
-    /* For large ranges, use runs container */
-    if (rangeSize > VARINT_BITMAP_ARRAY_MAX) {
+    /* For large ranges, use runs container. A single run can only stand for
+     * the whole set when nothing else is in it: a non-empty set keeps its
+     * members and takes the range element by element below. */
+    if (rangeSize > VARINT_BITMAP_ARRAY_MAX && vb->cardinality == 0) {
         /* Convert to runs if beneficial */
         if (vb->type == VARINT_BITMAP_ARRAY) {
             free(vb->container.array.values);
         } else if (vb->type == VARINT_BITMAP_BITMAP) {
             free(vb->container.bitmap.bits);
+        } else if (vb->type == VARINT_BITMAP_RUNS) {
+            free(vb->container.runs.runs);
         }
 
         vb->type = VARINT_BITMAP_RUNS;
